@@ -12,6 +12,7 @@ import (
 	"errors"
 	"fmt"
 	"io"
+	"math/rand"
 	"net"
 	"reflect"
 	"strings"
@@ -407,6 +408,7 @@ func mkScenario(c *hl.Ctx, spec scenarioSpec) mc.Scenario {
 	s := mc.Scenario{
 		Name: sp.Name, Bounds: bounds, Horizon: 4000,
 		Setup: func(x *vsched.Exec) {
+			rand.Seed(1) // client frames carry mask keys from math/rand: the same schedule must put the same bytes on the wire
 			vtime.TimeoutsEnabled = sp.Timeouts
 			d := newExec(&sp, true)
 			d.c.who = func() string { return x.CurrentThread() }
